@@ -57,7 +57,7 @@ def sev(start, dur, vel, tick, total, n, pre=None, k=None):
 class C20(Property):
     id = "C20"
     lean_module = "RosuModel.Props.C20Full"   # imports Props/C20Exact.lean (→ Props/C20.lean) and Props/C20Ieee.lean; all in namespace Rosu.C20
-    theorem_modules = ['RosuModel.Props.C20Exact', 'RosuModel.Props.C20Ieee', 'RosuModel.Props.C20IeeeTicks', 'RosuModel.Props.C20IeeeErr']   # files whose top-level theorems are all audited
+    theorem_modules = ['RosuModel.Props.C20Exact', 'RosuModel.Props.C20Ieee', 'RosuModel.Props.C20IeeeTicks', 'RosuModel.Props.C20IeeeErr', 'RosuModel.Props.C20IeeeErr2']   # files whose top-level theorems are all audited
     namespace = "Rosu.C20"
     design_ref = "5.20"
     level_text = (
@@ -87,6 +87,7 @@ class C20(Property):
         "eager Rust reference written from the property text judges the implementation.")
     technique = "Lean 4 proof (induction over spans / stack discipline) + bit-exact differential correspondence on the public iterator"
     required_theorems = [
+        "tick_progress_err_float", "tick_progress_multiple_err_float", "tick_time_err_float", "tick_time_total_err_float", "span_start_err_float",
         "ticks_near_multiples_float", "tick_rel_err_float", "tick_rel_err_crude_float", "tick_abs_err_after_new_float", "first_tick_exact_float", "exG_third_tick_off",
         "stream_shape", "stream_shape_spec", "stream_fuel_exhausted", "event_count", "buffer_irrelevant", "runSeq_buffer_irrelevant",
         "takeAcc_prefix", "collectAcc_eq_collect", "eventsOf_eq_concat",
@@ -113,7 +114,10 @@ class C20(Property):
             "ticks_near_multiples_float — for the distances ds spanTickDists returns on doubles (finite len; no hypothesis on the tick distance t) the (k+1)-th one satisfies "
             "(k+1) t (1 - 2^-53)^k <= ds[k] <= (k+1) t (1 + 2^-53)^k, the first one is t exactly (first_tick_exact_float); tick_rel_err_float, tick_rel_err_crude_float "
             "(|ds[k] - (k+1)t| <= (k+1)^2 2^-52 t for k <= 2^53), and after SliderEventsIter::new (len <= 100000) tick_abs_err_after_new_float: |ds[k] - (k+1)t| <= k 2^-36 whatever t. "
-            "These are theorems about Float.Model; the path PROGRESS d/len and the tick TIME of each event add one division / multiplication each, for which no error bound is proved yet",
+            "Path PROGRESS and tick TIME (Props/C20IeeeErr2.lean over Lemmas/FloatErrMul.lean): tick_progress_err_float (|d/len computed - d/len| <= 2^-53 d/len), tick_progress_multiple_err_float "
+            "(|progress_k - (k+1)t/len| <= ((1+2^-53)^(k+1) - 1)(k+1)t/len), tick_time_err_float (the tick time against span start + theta * span duration with theta = d/len or 1 - d/len on reversed spans: "
+            "<= 2^-53 |span start| + 5 * 2^-53 * duration + 2^-1074; the only no-overflow hypothesis is that the result is finite), span_start_err_float, tick_time_total_err_float (against start + s*D + theta*D). "
+            "All theorems about Float.Model; kernel-evaluated instance on exG (third tick time 0x4072C00000000001, deviation 7 * 2^-49 inside the bound)",
         "ticks_respect_min_distance_strict / ticks_respect_min_distance_exact":
             "the generic forms need a total order (OrderedFieldLaws.lt_of_not_le, false with NaN); the structural ticks_respect_min_distance states both guards exactly as the code tests "
             "them and holds for IEEE. NOW ALSO FOR IEEE DOUBLES (Props/C20Ieee.lean; Lean 4.33's Float is a structure over the logical model Float.Model and the comparisons reduce in the kernel; order theory of "
